@@ -17,7 +17,6 @@ package c16
 
 import (
 	"bytes"
-	"context"
 	"crypto/ecdsa"
 	"crypto/elliptic"
 	"crypto/hmac"
@@ -28,8 +27,6 @@ import (
 	"fmt"
 	"io"
 	"log"
-	"net/http"
-	"net/http/httptest"
 	"os"
 	"sort"
 	"strings"
@@ -37,11 +34,9 @@ import (
 	"time"
 
 	"github.com/golang-jwt/jwt/v5"
-	"github.com/sanonone/kektordb/internal/server"
 	"github.com/sanonone/kektordb/internal/verif/srvx"
 	"github.com/sanonone/kektordb/internal/verif/vk"
 	"github.com/sanonone/kektordb/pkg/auth"
-	"github.com/sanonone/kektordb/pkg/engine"
 )
 
 func TestCheck(t *testing.T) {
@@ -51,165 +46,6 @@ func TestCheck(t *testing.T) {
 	run(c)
 	c.Finish()
 	vk.Exit(0)
-}
-
-const root = "root-token-for-verification"
-
-var indexes = []string{"nsA", "nsB", "x-search"}
-var kvKeys = []string{"kvkey", "k-search"}
-
-type env struct {
-	dir    string
-	e      *engine.Engine
-	srv    *server.Server
-	h      http.Handler
-	tokens map[string]string
-	jtis   map[string]string
-}
-
-func openEnv(dir string) (*env, error) {
-	opts := engine.DefaultOptions(dir)
-	opts.AutoSaveInterval = 0
-	e, err := engine.Open(opts)
-	if err != nil {
-		return nil, err
-	}
-	srv, err := server.NewServer(e, ":0", "", root, dir, "", nil)
-	if err != nil {
-		e.Close()
-		return nil, err
-	}
-	return &env{dir: dir, e: e, srv: srv, h: srv.VerifHandler(), tokens: map[string]string{}, jtis: map[string]string{}}, nil
-}
-
-func (v *env) do(method, path, token string, body []byte, timeout time.Duration) *httptest.ResponseRecorder {
-	var rd io.Reader
-	if body != nil {
-		rd = bytes.NewReader(body)
-	}
-	req := httptest.NewRequest(method, path, rd)
-	ctx, cancel := context.WithTimeout(context.Background(), timeout)
-	defer cancel()
-	req = req.WithContext(ctx)
-	req.Header.Set("Content-Type", "application/json")
-	if token != "" {
-		req.Header.Set("Authorization", "Bearer "+token)
-	}
-	w := httptest.NewRecorder()
-	done := make(chan struct{})
-	go func() {
-		defer close(done)
-		defer func() { recover() }()
-		v.h.ServeHTTP(w, req)
-	}()
-	select {
-	case <-done:
-	case <-time.After(timeout + 2*time.Second):
-	}
-	return w
-}
-
-func (v *env) issue(name, role string, ns []string) error {
-	b, _ := json.Marshal(map[string]any{"description": name, "role": role, "namespaces": ns})
-	w := v.do("POST", "/auth/keys", root, b, 5*time.Second)
-	if w.Code != 200 {
-		return fmt.Errorf("issue %s: %d %s", name, w.Code, w.Body.String())
-	}
-	var out struct {
-		Token  string `json:"token"`
-		Policy struct {
-			ID string `json:"id"`
-		} `json:"policy"`
-	}
-	if err := json.Unmarshal(w.Body.Bytes(), &out); err != nil || out.Token == "" {
-		return fmt.Errorf("issue %s: bad response %s", name, w.Body.String())
-	}
-	v.tokens[name] = out.Token
-	v.jtis[name] = out.Policy.ID
-	return nil
-}
-
-func (v *env) fixtureIntact() bool {
-	for _, ix := range indexes {
-		if d, err := v.e.VGet(ix, "v0"); err != nil || d.Metadata["secret"] != "SENT-"+ix {
-			return false
-		}
-		if _, err := v.e.VGet(ix, "v1"); err != nil {
-			return false
-		}
-	}
-	for _, k := range kvKeys {
-		if _, ok := v.e.KVGet(k); !ok {
-			return false
-		}
-	}
-	return true
-}
-
-func (v *env) reset() {
-	for _, ix := range v.e.ListIndexes() {
-		v.e.VDeleteIndex(ix)
-	}
-	for _, ix := range indexes {
-		v.e.VCreate(ix, "euclidean", 4, 8, "float32", "", nil, nil, nil)
-		v.e.VAdd(ix, "v0", []float32{1, 0}, map[string]any{"secret": "SENT-" + ix})
-		v.e.VAdd(ix, "v1", []float32{0, 1}, map[string]any{"secret": "SENT-" + ix})
-		v.e.VLink(ix, "v0", "v1", "r", "", 1, nil)
-	}
-	for _, k := range kvKeys {
-		v.e.KVSet(k, []byte("SENT-kv"))
-	}
-}
-
-// digest returns one string per index plus KV / auth state.
-func (v *env) digest() map[string]string {
-	out := map[string]string{}
-	names := v.e.ListIndexes()
-	sort.Strings(names)
-	out["#indexes"] = strings.Join(names, ",")
-	for _, ix := range names {
-		var b strings.Builder
-		info, _ := v.e.DB.GetSingleVectorIndexInfoAPI(ix)
-		fmt.Fprintf(&b, "%v|", info)
-		var cur uint32
-		ids := []string{}
-		for g := 0; g < 50; g++ {
-			l, next, err := v.e.VGetIDsByCursor(ix, cur, 100)
-			if err != nil {
-				break
-			}
-			ids = append(ids, l...)
-			if next == 0 || next <= cur {
-				break
-			}
-			cur = next
-		}
-		sort.Strings(ids)
-		for _, id := range ids {
-			d, err := v.e.VGet(ix, id)
-			if err == nil {
-				fmt.Fprintf(&b, "%s=%v%s;", id, d.Vector, vk.JSON(d.Metadata))
-			}
-			fmt.Fprintf(&b, "out=%v in=%v;", v.e.VGetRelations(ix, id), v.e.VGetIncomingRelations(ix, id))
-		}
-		if rules, err := v.e.VGetAutoLinks(ix); err == nil {
-			fmt.Fprintf(&b, "auto=%v", rules)
-		}
-		out["ix:"+ix] = b.String()
-	}
-	kv := v.e.DB.GetKVStore()
-	keys := kv.Keys()
-	sort.Strings(keys)
-	var b strings.Builder
-	for _, k := range keys {
-		if strings.HasPrefix(k, "_sys_auth::ecdsa") {
-			continue
-		}
-		val, _ := kv.Get(k)
-		fmt.Fprintf(&b, "%s=%x;", k, sha256.Sum256(val))
-	}
-	out["#kv"] = b.String()
-	return out
 }
 
 type principal struct {
@@ -306,22 +142,22 @@ func matrix(c *vk.Ctx) {
 	c.F.Extra["body_templates"] = len(tmpls)
 	dir, _ := os.MkdirTemp(vk.TmpRoot(), "c16-")
 	defer os.RemoveAll(dir)
-	v, err := openEnv(dir)
+	v, err := srvx.OpenEnv(dir)
 	if err != nil {
 		c.Violate("C16 server start failed (VERIF-HARNESS)", err.Error(), nil)
 		return
 	}
-	defer v.e.Close()
-	v.reset()
+	defer v.E.Close()
+	v.Reset()
 	for _, p := range principals {
 		if p.role != "" {
-			if err := v.issue(p.name, p.role, []string{p.ns}); err != nil {
+			if err := v.Issue(p.name, p.role, []string{p.ns}); err != nil {
 				c.Violate("C16 cannot issue token (VERIF-HARNESS)", err.Error(), nil)
 				return
 			}
 		}
 	}
-	v.tokens["garbage"] = "not.a.token"
+	v.Tokens["garbage"] = "not.a.token"
 	shp := shapes()
 	var n int64
 	var slowest int64
@@ -337,9 +173,9 @@ func matrix(c *vk.Ctx) {
 		c.Sample(rt.Method + " " + rt.Path)
 		var paths []string
 		seen := map[string]bool{}
-		for _, name := range indexes {
+		for _, name := range srvx.Indexes {
 			for _, id := range []string{"v0", "get-vectors"} {
-				for _, key := range kvKeys {
+				for _, key := range srvx.KVKeys {
 					p := expand(rt.Path, name, id, key)
 					if !seen[p] {
 						seen[p] = true
@@ -368,10 +204,10 @@ func matrix(c *vk.Ctx) {
 				}
 				for _, body := range bodies {
 					for _, p := range principals {
-						if !v.fixtureIntact() {
-							v.reset()
+						if !v.FixtureIntact() {
+							v.Reset()
 						}
-						before := v.digest()
+						before := v.Digest()
 						to := 3 * time.Second
 						if streaming(path) {
 							to = 30 * time.Millisecond
@@ -384,13 +220,13 @@ func matrix(c *vk.Ctx) {
 							bb = []byte(body)
 						}
 						t0 := vk.RealNow()
-						w := v.do(method, path, v.tokens[p.name], bb, to)
+						w := v.Do(method, path, v.Tokens[p.name], bb, to)
 						if dt := vk.RealNow() - t0; dt > slowest {
 							slowest = dt
 							c.F.Notes[fmt.Sprintf("slowest_request_shard%d", c.F.Shard)] = fmt.Sprintf("%s %s principal=%s body=%s took %.3fs -> %d", method, path, p.name, trunc(body, 120), float64(dt)/1e9, w.Code)
 						}
 						n++
-						after := v.digest()
+						after := v.Digest()
 						c.Trans(1)
 						c.Outcome(fmt.Sprintf("%s->%d", p.name, w.Code))
 						rep := func(kind, detail string) {
@@ -470,19 +306,19 @@ func tokenPart(c *vk.Ctx) {
 	}
 	dir, _ := os.MkdirTemp(vk.TmpRoot(), "c16t-")
 	defer os.RemoveAll(dir)
-	v, err := openEnv(dir)
+	v, err := srvx.OpenEnv(dir)
 	if err != nil {
 		return
 	}
-	defer v.e.Close()
-	v.reset()
-	if err := v.issue("w", "write", []string{"*"}); err != nil {
+	defer v.E.Close()
+	v.Reset()
+	if err := v.Issue("w", "write", []string{"*"}); err != nil {
 		c.Violate("C16 cannot issue token (VERIF-HARNESS)", err.Error(), nil)
 		return
 	}
-	tok := v.tokens["w"]
+	tok := v.Tokens["w"]
 	probe := func(t string) int {
-		return v.do("GET", "/vector/indexes", t, nil, 3*time.Second).Code
+		return v.Do("GET", "/vector/indexes", t, nil, 3*time.Second).Code
 	}
 	var n int64
 	if code := probe(tok); code != 200 {
@@ -521,7 +357,7 @@ func tokenPart(c *vk.Ctx) {
 		}
 	}
 	// HS256 keyed with the public key (key confusion)
-	jw := v.do("GET", "/.well-known/jwks.json", "", nil, 3*time.Second).Body.Bytes()
+	jw := v.Do("GET", "/.well-known/jwks.json", "", nil, 3*time.Second).Body.Bytes()
 	hdrHS := base64.RawURLEncoding.EncodeToString([]byte(`{"alg":"HS256","typ":"JWT"}`))
 	for _, key := range [][]byte{jw, []byte("secret"), {}} {
 		mac := hmac.New(sha256.New, key)
@@ -543,7 +379,7 @@ func tokenPart(c *vk.Ctx) {
 		bad("foreign-key-token-accepted", fmt.Sprint(code))
 	}
 	// expired / not yet valid, signed with the server's own key
-	prov, err := auth.NewJWTProvider(v.e.DB.GetKVStore())
+	prov, err := auth.NewJWTProvider(v.E.DB.GetKVStore())
 	if err == nil {
 		now := time.Now()
 		mk := func(nbf, exp time.Time) string {
@@ -563,7 +399,7 @@ func tokenPart(c *vk.Ctx) {
 		}
 	}
 	// revoked
-	w := v.do("DELETE", "/auth/keys/"+v.jtis["w"], root, nil, 3*time.Second)
+	w := v.Do("DELETE", "/auth/keys/"+v.Jtis["w"], srvx.Root, nil, 3*time.Second)
 	n++
 	if w.Code != 200 {
 		bad("revoke-failed", fmt.Sprint(w.Code, w.Body.String()))
@@ -615,12 +451,12 @@ func restartPart(c *vk.Ctx) {
 		c.Trans(int64(len(s) + 1))
 		c.DistinctKey("restart:" + strings.Join(s, ","))
 		dir, _ := os.MkdirTemp(vk.TmpRoot(), "c16r-")
-		v, err := openEnv(dir)
+		v, err := srvx.OpenEnv(dir)
 		if err != nil {
 			os.RemoveAll(dir)
 			continue
 		}
-		v.reset()
+		v.Reset()
 		type tk struct {
 			tok, jti string
 			revoked  bool
@@ -628,14 +464,14 @@ func restartPart(c *vk.Ctx) {
 		var toks []*tk
 		issue := func() {
 			name := fmt.Sprint("t", len(toks))
-			if err := v.issue(name, "read", []string{"*"}); err == nil {
-				toks = append(toks, &tk{tok: v.tokens[name], jti: v.jtis[name]})
+			if err := v.Issue(name, "read", []string{"*"}); err == nil {
+				toks = append(toks, &tk{tok: v.Tokens[name], jti: v.Jtis[name]})
 			}
 		}
 		issue()
 		restart := func() bool {
-			v.e.Close()
-			nv, err := openEnv(dir)
+			v.E.Close()
+			nv, err := srvx.OpenEnv(dir)
 			if err != nil {
 				c.Violate("C16 restart failed seq="+strings.Join(s, ","), err.Error(), nil)
 				return false
@@ -651,18 +487,18 @@ func restartPart(c *vk.Ctx) {
 			case "revoke":
 				for _, t := range toks {
 					if !t.revoked {
-						v.do("DELETE", "/auth/keys/"+t.jti, root, nil, 3*time.Second)
+						v.Do("DELETE", "/auth/keys/"+t.jti, srvx.Root, nil, 3*time.Second)
 						t.revoked = true
 						break
 					}
 				}
 			case "snapshot":
-				v.do("POST", "/system/save", root, nil, 5*time.Second)
+				v.Do("POST", "/system/save", srvx.Root, nil, 5*time.Second)
 			case "rewrite":
-				v.do("POST", "/system/aof-rewrite", root, nil, 5*time.Second)
+				v.Do("POST", "/system/aof-rewrite", srvx.Root, nil, 5*time.Second)
 				time.Sleep(20 * time.Millisecond)
 				// the rewrite endpoint is asynchronous (task manager): also call the engine directly so the step is complete
-				v.e.RewriteAOF()
+				v.E.RewriteAOF()
 			case "restart":
 				ok = restart()
 			}
@@ -672,7 +508,7 @@ func restartPart(c *vk.Ctx) {
 		}
 		if ok {
 			for i, t := range toks {
-				code := v.do("GET", "/vector/indexes", t.tok, nil, 3*time.Second).Code
+				code := v.Do("GET", "/vector/indexes", t.tok, nil, 3*time.Second).Code
 				if t.revoked && code != 401 {
 					c.Outcome("revoked-accepted")
 					c.Violate("C16 revoked-token-works-after-restart seq="+strings.Join(s, ","), fmt.Sprintf("token %d revoked before the restart, status %d after it", i, code),
@@ -685,7 +521,7 @@ func restartPart(c *vk.Ctx) {
 					c.Outcome("restart-ok")
 				}
 			}
-			v.e.Close()
+			v.E.Close()
 		}
 		os.RemoveAll(dir)
 		if c.TimeUp() {
